@@ -186,13 +186,11 @@ func (x *exec) directRender(name string, v view.View, extra int) {
 	if min < 0 {
 		min = 0
 	}
+	// every granted height of at least the declared minimum; a view that
+	// declares a fixed height is granted exactly that
 	n := min + extra
-	if max >= 0 && n > max {
-		// View.Print is only ever granted at most MaxLines by the screen.
-		n = max
-		if n < min {
-			return // declared maximum below the declared minimum: nothing to grant
-		}
+	if min == max {
+		n = min
 	}
 	out, err, panicked, fn, msg := captureRender(func() error { return v.Print(n) })
 	x.ctx.Note("render %s n=%d -> %d lines err=%v panic=%v", name, n, countLines(out), err != nil, panicked)
@@ -240,6 +238,146 @@ func (x *exec) doRender(ev Ev) {
 		out, err, panicked, _, _ := captureRender(func() error { return v.Print(100000) })
 		if !panicked && err == nil && mem != nil {
 			x.checkMemRows("whole-view", parseMemRows(out), expectedMemRows(mem), true)
+		}
+	}
+}
+
+// memLab is the direct memory-view driver: a sparse memory is filled by a
+// seeded history of small constant stores scattered over a few 16-byte
+// windows (also the very first and the very last of the address space), a
+// fresh memory view over it is rendered as a whole and compared row by row,
+// and its own `address` command is executed on stored, absent and outside
+// addresses.
+func (x *exec) memLab(seed int) {
+	r := core.NewRand(uint64(seed) ^ 0x6d656d6c6162)
+	mem := memory.NewSparse()
+	var base uint64
+	switch r.Intn(5) {
+	case 0:
+		base = 0
+	case 1:
+		base = 0x1000 + uint64(r.Intn(64))
+	case 2:
+		base = ^uint64(0) - 63
+	case 3:
+		base = r.Uint64() &^ 0xf
+	default:
+		base = 0x7fff0
+	}
+	var stored []uint64
+	for i, n := 0, r.Range(1, 10); i < n; i++ {
+		w := r.Range(1, 3)
+		if r.Chance(1, 5) {
+			w = r.Range(4, 20)
+		}
+		a := base + uint64(r.Intn(48))
+		if a+uint64(w) <= a {
+			continue // would reach the end of the address space: not representable
+		}
+		mem.Store(model.Addr(a), expr.NewConst(r.Bytes(w), expr.Width(w)), expr.Width(w))
+		for k := 0; k < w; k++ {
+			stored = append(stored, a+uint64(k))
+		}
+	}
+	if len(stored) == 0 {
+		return
+	}
+	x.ctx.Probe("memlab")
+	if base == ^uint64(0)-63 {
+		x.ctx.Probe("memlab_top_of_address_space")
+	}
+	var md consoleui.Mode
+	if fn, msg, p := core.Guard(func() { md = memview.New(mem) }); p {
+		x.fail("C32", "memview", "memview/lab/new-panic/"+fn, "memview.New panicked: %s", msg)
+		return
+	}
+	v := md.View()
+	out, err, panicked, fn, msg := captureRender(func() error { return v.Print(100000) })
+	if panicked {
+		x.fail("C24", "render-no-crash", "render-panic/memory-lab/"+fn, "memory view Print panicked: %s", msg)
+		return
+	}
+	exp := expectedMemRows(mem)
+	for _, e := range exp {
+		runs, in := 0, false
+		for _, c := range e.Cells {
+			if c != ".." && !in {
+				runs++
+			}
+			in = c != ".."
+		}
+		if runs >= 3 {
+			x.ctx.Probe("memlab_row_with_3plus_blocks")
+		}
+	}
+	if err == nil {
+		x.checkMemRows("lab-whole-view", parseMemRows(out), exp, true)
+	}
+	if x.stop {
+		return
+	}
+	var addrCmd *consoleui.Command
+	cmds := md.Commands()
+	for i := range cmds {
+		for _, k := range cmds[i].Keys {
+			if k == "address" {
+				addrCmd = &cmds[i]
+			}
+		}
+	}
+	if addrCmd == nil || len(addrCmd.Args) != 1 {
+		return
+	}
+	for k := 0; k < 4 && !x.stop; k++ {
+		var a uint64
+		switch r.Intn(4) {
+		case 0, 1:
+			a = stored[r.Intn(len(stored))]
+		case 2:
+			a = base + uint64(r.Intn(64))
+		default:
+			a = base + 4096 + uint64(r.Intn(64))
+		}
+		arg := spellNumber(r, new(big.Int).SetUint64(a), false)
+		var val interface{}
+		var perr, aerr error
+		fn, msg, panicked := core.Guard(func() {
+			val, perr = addrCmd.Args[0](arg)
+			if perr == nil {
+				aerr = addrCmd.Action(nil, val)
+			}
+		})
+		if panicked {
+			x.fail("C30", "address-parse", "address/lab-panic/"+fn, "address %q panicked: %s", arg, msg)
+			return
+		}
+		if perr != nil {
+			x.fail("C30", "address-parse", "address/lab/rejected", "address argument %q (= %#x) was rejected: %v", arg, a, perr)
+			return
+		}
+		var row *ExpRow
+		for i := range exp {
+			if exp[i].Begin == a&^15 {
+				row = &exp[i]
+			}
+		}
+		isStored := row != nil && row.Cells[a&15] != ".."
+		x.ctx.Note("memlab address %#x stored=%v err=%v", a, isStored, aerr != nil)
+		switch {
+		case isStored && aerr != nil:
+			x.fail("C32", "address-select", "address-select/lab/stored-not-found", "address %#x is stored but the address command failed: %v", a, aerr)
+		case row == nil && aerr == nil:
+			x.fail("C32", "address-select", "address-select/lab/absent-selected", "address %#x lies in no displayed window but the address command succeeded", a)
+		case aerr == nil:
+			fr, ferr, p2, _, _ := captureRender(func() error { return v.Print(9) })
+			if p2 || ferr != nil {
+				continue
+			}
+			for _, mr := range parseMemRows(fr) {
+				if mr.Cursor && (mr.Ellipsis || mr.Begin != a&^15) {
+					x.fail("C32", "address-select", "address-select/lab/wrong-row", "address %#x: cursor is on the row of window %#x", a, mr.Begin)
+				}
+			}
 		}
 	}
 }
@@ -799,6 +937,10 @@ func (x *exec) next(o *Obs) Ev {
 				if o.Kind == pCommand {
 					x.doRender(ev)
 				}
+			case "memlab":
+				if o.Kind == pCommand {
+					x.memLab(ev.N)
+				}
 			}
 			continue
 		}
@@ -882,6 +1024,7 @@ func (e *Engine) Execute(tr core.Trace, ctx *core.Ctx) {
 		ctx.Probe("program_not_loadable")
 		return
 	}
+	curTrace = t
 	x := &exec{ctx: ctx, t: t, tr: newTracker()}
 	s := &session{ld: ld}
 	x.s = s
